@@ -303,9 +303,10 @@ func sqlRowsShow(rows [][]c15Val, max int) string {
 // ---------------------------------------------------------------- SQL text with parameters
 
 type sqlText struct {
-	SQL    string
-	Params map[string]interface{}
-	PToks  []string // "@p1=tok" for replays
+	SQL      string
+	Params   map[string]interface{}
+	PToks    []string // "@p1=tok" for replays
+	ViaQuery bool     // replay only: the line was executed through Engine.Query
 }
 
 func (t sqlText) String() string {
